@@ -281,22 +281,16 @@ func c06r2(c *core.Ctx) {
 		}
 		// the move loop: calls a mover and invokes the callback; fields assigned there
 		var needs []string
-		core.InspectNoLits(f.Body, func(n ast.Node) bool {
-			if cl, ok := n.(*ast.CompositeLit); ok && core.NamedName(m.Info.TypeOf(cl)) == recType {
-				init := map[string]bool{}
-				for _, e := range cl.Elts {
-					if kv, ok := e.(*ast.KeyValueExpr); ok {
-						init[litFieldKey(m, kv)] = true
-					}
-				}
-				for k := range read {
-					if !init[k] && !stored[k] {
-						needs = append(needs, k)
-					}
+		for _, cn := range constructionsOf(m, f) {
+			if cn.typ != recType {
+				continue
+			}
+			for k := range read {
+				if _, init := cn.fields[k]; !init && !stored[k] {
+					needs = append(needs, k)
 				}
 			}
-			return true
-		})
+		}
 		subject := f.Name + ": batch records"
 		if len(needs) == 0 {
 			c.OK("C06/R2", subject, c.At(f.Pos()), "every field of a batch record that is read was initialised or written back into the list (through a pointer/index)")
